@@ -573,6 +573,7 @@ impl Ctx {
         let mut runner = TestRunner::new_with_rng(config, TestRng::from_seed(RngAlgorithm::ChaCha, &seed));
         let mut sub = self.sub(name, "proptest");
         let failed = RefCell::new(false);
+        let last_failure: RefCell<Option<Violation>> = RefCell::new(None);
         let acc: RefCell<Vec<(S::Value, CaseStats)>> = RefCell::new(Vec::new());
         // evaluate in batches so that `record` (which needs &mut self) stays outside the runner closure
         let result = {
@@ -597,7 +598,9 @@ impl Ctx {
                     }
                     Err(viol) => {
                         *failed.borrow_mut() = true;
-                        Err(TestCaseError::fail(viol.sig))
+                        let sig = viol.sig.clone();
+                        *last_failure.borrow_mut() = Some(viol);
+                        Err(TestCaseError::fail(sig))
                     }
                 }
             })
@@ -612,7 +615,11 @@ impl Ctx {
                 self.evaluations += 1;
                 let v = match guarded(|| f(&minimal)) {
                     Err(v) => v,
-                    Ok(_) => Violation::new("not-reproduced", "the shrunk case failed during the search but passed when re-run once more (schedule- or state-dependent failure)"),
+                    Ok(_) => match last_failure.borrow_mut().take() {
+                        // keep what was actually observed: the signature and message of the last failing evaluation of the search
+                        Some(seen) => Violation::new(&seen.sig, format!("{} [observed during the search; the shrunk case passed when re-run once more: schedule- or state-dependent failure]", seen.msg)),
+                        None => Violation::new("not-reproduced", "the shrunk case failed during the search but passed when re-run once more (schedule- or state-dependent failure)"),
+                    },
                 };
                 self.violation(name, kind, &minimal, &v);
             }
